@@ -137,6 +137,9 @@ def probe(ns, folder, default, rules, final, sizes):
         guard("get_webentities_links(in)", lambda: t.get_webentities_links(out=False))
         guard("get_webentities_links_slow", lambda: t.get_webentities_links_slow(out=True))
         guard("links_metrics", t.links_metrics)
+        guard("count_links", t.count_links)
+        if pages or prefixes:
+            guard("metrics", t.metrics)
         got_pages = set()
         for p, _ in pages:
             got_pages.add(p)
